@@ -592,30 +592,36 @@ def check_del_routes(P, ctx, rule='C06.del-routes'):
     for entry, name in (('del', 'ALLOC_STANDARD'), ('del_root', 'ALLOC_ROOT'), ('del_raw', 'ALLOC_RAW')):
         fn = P.fn(entry)
         ctx.fn(fn)
-        events = []
+        # (whether the collector is running or stopped is not the deleter's business: a stopped collector still holds the entry)
+        for running in (1, 0):
+            events = []
 
-        def call(nm, e, it, events=events):
-            if nm == 'current':
-                return GCTOK if ir.top_nocast(e[2][0]) == ('global', 'GC') else 4999
-            if nm == 'rem':
-                events.append(('rem', it.ev(e[2][0]), it.ev(e[2][1])))
-                return 0
-            if nm == 'destruct':
-                events.append(('destruct', it.ev(e[2][0])))
-                return it.ev(e[2][0])
-            if nm in ('dealloc', 'dealloc_raw', 'dealloc_root'):
-                events.append(('dealloc', it.ev(e[2][0])))
-                return 0
-            raise cint.NoEval('call %s' % nm)
-        r = cint.CInt(P, fn, atoms={('global', 'NULL'): 0}, call=call, recurse=True).run([SELF_])
-        want = [('rem', GCTOK, SELF_)] if name != 'ALLOC_RAW' else [('destruct', SELF_), ('dealloc', SELF_)]
-        if r[0] == 'stuck':
-            ctx.undecided(rule, 'del_by:' + name, site(fn), '%s leaves the evaluated fragment: %s' % (entry, r[1]))
-            continue
-        ok = r[0] == 'ret' and events == want
-        ctx.check(ok, rule, 'del_by:' + name, site(fn),
-                  '%s objects are released %s on every path' % (name, 'through rem(current(GC), self) only' if name != 'ALLOC_RAW' else 'directly (dealloc(destruct(self)))'),
-                  ['%s does: %s' % (entry, ', '.join('%s%s' % (e_[0], e_[1:]) for e_ in events) or 'nothing')] if not ok else None)
+            def call(nm, e, it, events=events, running=running):
+                if nm == 'running':
+                    return running
+                if nm == 'current':
+                    return GCTOK if ir.top_nocast(e[2][0]) == ('global', 'GC') else 4999
+                if nm == 'rem':
+                    events.append(('rem', it.ev(e[2][0]), it.ev(e[2][1])))
+                    return 0
+                if nm == 'destruct':
+                    events.append(('destruct', it.ev(e[2][0])))
+                    return it.ev(e[2][0])
+                if nm in ('dealloc', 'dealloc_raw', 'dealloc_root'):
+                    events.append(('dealloc', it.ev(e[2][0])))
+                    return 0
+                raise cint.NoEval('call %s' % nm)
+            r = cint.CInt(P, fn, atoms={('global', 'NULL'): 0}, call=call, recurse=True).run([SELF_])
+            want = [('rem', GCTOK, SELF_)] if name != 'ALLOC_RAW' else [('destruct', SELF_), ('dealloc', SELF_)]
+            if r[0] == 'stuck':
+                ctx.undecided(rule, 'del_by:' + name, site(fn), '%s leaves the evaluated fragment: %s' % (entry, r[1]))
+                break
+            ok = r[0] == 'ret' and events == want
+            if not ok or running == 0:
+                ctx.check(ok, rule, 'del_by:' + name, site(fn),
+                          '%s objects are released %s on every path, whether the collector is running or stopped' % (name, 'through rem(current(GC), self) only' if name != 'ALLOC_RAW' else 'directly (dealloc(destruct(self)))'),
+                          ['%s%s does: %s' % (entry, '' if running else ' with the collector stopped', ', '.join('%s%s' % (e_[0], e_[1:]) for e_ in events) or 'nothing')] if not ok else None)
+                break
     ctx.floor(rule, 3)
 
 
